@@ -67,7 +67,8 @@ class ClampedInterp:
     """Spline of degree p on clamped knots interpolating data at the nodes x."""
 
     def __init__(self, x, breaks, p):
-        self.x = np.asarray(x, dtype=float)
+        # (interpolation points reported by the code may sit one ulp outside the domain after its rounding)
+        self.x = np.clip(np.asarray(x, dtype=float), breaks[0], breaks[-1])
         self.T = clamped_knots(breaks, p)
         self.p = p
         self.A = BSpline.design_matrix(self.x, self.T, p).toarray()
